@@ -3,7 +3,7 @@ From Coq Require Import ZArith List Bool.
 From Coq Require String.
 From PS.model Require Import Smt Enc Ind Prog.
 From PS.spec Require Import Spec.
-From PS.proofs Require Import Base SortNoDup Cons_proof C04_periodic C04_distance Res_proof Wf_proof C06_proof Examples Examples4.
+From PS.proofs Require Import Base SortNoDup Cons_proof C04_periodic C04_distance Res_proof Wf_proof C06_proof Examples Examples4 Refuted.
 Import ListNotations.
 Open Scope Z_scope.
 
@@ -63,3 +63,22 @@ Theorem C04_hypotheses_satisfiable : exists st, reaches ex2_prog st /\ sat ex2_e
   /\ List.length (ps_cons st) = 18%nat /\ List.length (spec_all st) = 86%nat.
 Proof. exact ex2_sat. Qed.
 Print Assumptions C04_hypotheses_satisfiable.
+
+(* ---- REFUTED on the pinned code (open known findings): the swept clauses below are NOT consequences of the assertion set.
+   Each theorem exhibits a reachable problem state, a valuation the assertion set admits, and a clause of the swept list that is
+   false under it -- all three evaluated by the kernel.  The same program and schedule, replayed on /repo, is the finding. ---- *)
+(* F07u: ResourceUnavailable does not constrain a task assigned to the resource after the constraint was created *)
+Theorem C04_unavailable_late_refuted : exists st, reaches f07u_prog st /\ sat f07u_env (initialize st) /\
+  exists k f, In (k, f) (spec_C04_swept st) /\ feval f07u_env f = false.
+Proof. exact F07u_refuted_any. Qed.
+Print Assumptions C04_unavailable_late_refuted.
+(* F07w: WorkLoad does not count a task assigned to the resource after the constraint was created *)
+Theorem C04_workload_late_refuted : exists st, reaches f07w_prog st /\ sat f07w_env (initialize st) /\
+  exists k f, In (k, f) (spec_C04_swept st) /\ feval f07w_env f = false.
+Proof. exact F07w_refuted_any. Qed.
+Print Assumptions C04_workload_late_refuted.
+(* F07i: ResourceInterrupted does not constrain a task assigned to the resource after the constraint was created *)
+Theorem C04_interrupted_late_refuted : exists st, reaches f07i_prog st /\ sat f07i_env (initialize st) /\
+  exists k f, In (k, f) (spec_C04_swept st) /\ feval f07i_env f = false.
+Proof. exact F07i_refuted_any. Qed.
+Print Assumptions C04_interrupted_late_refuted.
